@@ -245,8 +245,8 @@ def nontrivial(ck, r):
 
 def harness_args(ck):
     if ck.tier == "quick":
-        return ["-exh", "2", "-rand", "400", "-structs", "4", "-mut", "4", "-lisk32", "40"]
-    return ["-exh", "3", "-rand", "6000", "-structs", "40", "-mut", "20", "-lisk32", "3000"]
+        return ["-exh", "2", "-rand", "400", "-structs", "4", "-mut", "4", "-lisk32", "40", "-store", "6"]
+    return ["-exh", "3", "-rand", "6000", "-structs", "40", "-mut", "20", "-lisk32", "3000", "-store", "150"]
 
 
 def run(ck):
@@ -282,7 +282,12 @@ def run(ck):
         "Decode and DecodeStrict status, error class, re-encoded bytes; oracle: Encode.Decode fixed point accepted by DecodeStrict, "
         "flat canonical schemas accept only canonical bytes. Lisk32: boundary + random 20-byte addresses both directions, every "
         "single-character corruption of samples, prefix/length/charset errors. IDs: NewTransaction / NewBlockHeader / NewBlock on "
-        "generated, mutated and trailing-byte inputs (ID = SHA-256 of accepted/re-encoded bytes, stable under decode+encode). "
+        "generated, mutated and trailing-byte inputs and NewBlockHeaderWithValues with a nil aggregate commit (ID = SHA-256 of "
+        "accepted/re-encoded bytes, stable under decode+encode). Store/load: chains of 3-8 generated blocks (transactions with "
+        "boundary values, assets, events; block cache 1/2/100) saved by Chain.AddBlock on in-memory pebble and read back by "
+        "GetBlock / GetBlockByHeight / GetBlockHeader / GetBlockHeaderByHeight / GetTransaction(s) / GetEvents through the writing "
+        "and a fresh DataAccess: IDs, re-encoded bytes and ID = SHA-256(re-encoding). Nil elements inserted by reflection into every "
+        "[]*T field of decoded values: Encode must not panic and must write the same bytes. "
         "Distinct = by (method or struct, generator, strictness, outcome class, error class, input prefix/length).")
     ck.cov["exhaustive"] = True
     ck.extra["exhaustive_domain"] = "Reader primitives on byte strings up to length L over the 10-symbol boundary alphabet only"
